@@ -938,7 +938,34 @@ class _FuncEval:
             env[k] = t
         return env
 
+    @staticmethod
+    def _has_loop_jump(stmts) -> bool:
+        """Does the loop body contain a break / continue of this loop (not of a nested one)?"""
+        todo = list(stmts)
+        while todo:
+            n = todo.pop()
+            if isinstance(n, (ast.Break, ast.Continue)):
+                return True
+            if isinstance(n, (ast.For, ast.While, ast.AsyncFor, ast.FunctionDef, ast.AsyncFunctionDef, ast.Lambda,
+                              ast.ClassDef)):
+                todo.extend(getattr(n, "orelse", []) if not isinstance(n, (ast.FunctionDef, ast.Lambda)) else [])
+                continue
+            todo.extend(ast.iter_child_nodes(n))
+        return False
+
     def _loop(self, s, p, lid, it, cond):
+        if isinstance(s, ast.For) and it[0] in ("tuple", "list") and 0 < len(it[1]) <= 12 and \
+                not any(x[0] == "star" for x in it[1]) and not self._has_loop_jump(s.body):
+            # a loop over a table written out in the source is the same as its body written out once per entry (an
+            # early return in one round then conditions the later rounds, as it does in the written-out form)
+            for item in it[1]:
+                if not p.live:
+                    break
+                self.assign(s.target, item, p, s)
+                self.block(s.body, p)
+            if s.orelse and p.live:
+                self.block(s.orelse, p)
+            return
         assigned = self._assigned(s.body)
         targets = [n.id for n in ast.walk(s.target) if isinstance(n, ast.Name)] if isinstance(s, ast.For) else []
         inits = {}
@@ -1121,6 +1148,17 @@ class _FuncEval:
                 ent = None
             if ent is not None and ent[0] in ("module", "external"):
                 return ("global", f"{b[1]}.{e.attr}")
+        nm = e.attr.lstrip("_")
+        if nm and nm.isupper() and self.func.cls is not None and self.func.param_names and \
+                b == ("param", self.func.param_names[0]) and self.func.kind != "staticmethod":
+            # self.TABLE / cls.TABLE: a class-level constant (defined once along the hierarchy) is its value
+            owners = [c for c in self.ix.classes.values() if e.attr in c.class_assigns or e.attr in c.late_assigns]
+            ca = self.func.cls.lookup_class_attr(e.attr)
+            if ca is not None and len(owners) == 1 and e.attr not in self.func.cls.late_assigns:
+                try:
+                    return _from_python(ast.literal_eval(ca[0]))
+                except (ValueError, SyntaxError, TypeError):
+                    pass
         t = ("attr", b, e.attr)
         try:
             props = self.ix.resolve_property_load(e, self.scope)
@@ -1129,6 +1167,10 @@ class _FuncEval:
         if props:
             self.summ.props[t] = props
         return t
+
+    def _global_callee(self, f):
+        """The package function / constructor named by a ('global', dotted) function term, if it resolves."""
+        return _global_callee_impl(self, f)
 
     def ev_slice(self, sl, p):
         if isinstance(sl, ast.Slice):
@@ -1312,6 +1354,10 @@ class _FuncEval:
                     if m is not None:
                         self.summ.calls[c] = [m]
                         self.summ.precise.add(c)
+                g = self._global_callee(f)
+                if g is not None:
+                    self.summ.calls[c] = [g]
+                    self.summ.precise.add(c)
                 return c
             return dist(fn)
         t = ("call", fn, args, kwargs)
@@ -1320,6 +1366,11 @@ class _FuncEval:
         except Exception:  # noqa: BLE001
             targets = []
         targets = [f for f in (targets or []) if isinstance(f, FuncInfo)]
+        if not targets and not (isinstance(e.func, ast.Name) and fn == ("global", e.func.id)):
+            # a call through a local that holds a package class / function (`make = Wrapper; make(...)`)
+            g = self._global_callee(fn)
+            if g is not None:
+                targets = [g]
         if not targets and fn[0] == "attr" and fn[1] in (SELF, ("param", "cls")) and self.func.cls is not None:
             # self.method(...) / cls.method(...): the method of the enclosing class (overrides are by-name siblings)
             m = self.func.cls.lookup(fn[2])
@@ -1335,6 +1386,33 @@ class _FuncEval:
         # calls evaluated inside larger expressions still happen: record them as effects when they are method calls
         # with a mutating name or package calls (the rules look at summ.all_calls for the rest)
         return t
+
+
+def _global_callee_impl(ev, f):
+    if f[0] == "attr" and f[1][0] == "global":
+        # Class.method: a static / class method named through its class
+        try:
+            ent = ev.ix.resolve_expr_entity(ast.parse(f[1][1], mode="eval").body, ev.func.module)
+        except Exception:  # noqa: BLE001
+            return None
+        if ent is not None and ent[0] == "class":
+            m = ent[1].lookup(f[2])
+            if m is not None and (m.kind in ("staticmethod", "classmethod") or m.cls is None):
+                return m
+        return None
+    if f[0] != "global":
+        return None
+    try:
+        ent = ev.ix.resolve_expr_entity(ast.parse(f[1], mode="eval").body, ev.func.module)
+    except Exception:  # noqa: BLE001
+        return None
+    if ent is None:
+        return None
+    if ent[0] == "class":
+        return ent[1].lookup("__init__")
+    if ent[0] == "func":
+        return ent[1]
+    return None
 
 
 def _from_python(v):
@@ -1398,7 +1476,11 @@ def _inline(te: "TermEval", func: FuncInfo, depth: int, stack: tuple, stop) -> S
     out.precise = set(base.precise)
     out.falls_through, out.fall_pc, out.final_env = base.falls_through, base.fall_pc, base.final_env
     memo: dict = {}
-    hoisted: set = set()   # call terms whose effects were already placed (a value bound to a local and used later)
+    hoisted: dict = {}   # call term -> [(pc, ctx)] where its effects were already placed: a value bound to a local
+    #                       and used later (under the same or further conditions / loops) is not called again
+
+    def already_hoisted(x, pc, ctx):
+        return any(pc[:len(p0)] == p0 and ctx[:len(c0)] == c0 for p0, c0 in hoisted.get(x, ()))
 
     def callee_of(c):
         tg = base.calls.get(c) or out.calls.get(c)
@@ -1450,6 +1532,11 @@ def _inline(te: "TermEval", func: FuncInfo, depth: int, stack: tuple, stop) -> S
             amap = te._bind_args(cal, x)
             if amap is None:
                 return x
+            is_ctor = cal.name == "__init__" and x[1][0] != "attr" and cal.param_names
+            if is_ctor:
+                # Class(...): the value is the new object (named by the call term itself); __init__'s stores go into it
+                amap = dict(amap)
+                amap[cal.param_names[0]] = x
             key = (id(cal.node),)
             if key not in memo:
                 memo[key] = _inline(te, cal, depth - 1, stack + (func,), stop)
@@ -1459,9 +1546,9 @@ def _inline(te: "TermEval", func: FuncInfo, depth: int, stack: tuple, stop) -> S
                 amap = dict(amap)
                 for n, v in base.final_env.items():
                     amap.setdefault("<free>" + n, v)
-            for ce in (cs.effects if (x, pc, ctx) not in hoisted else ()):
+            for ce in (cs.effects if not already_hoisted(x, pc, ctx) else ()):
                 sink.append(_subst_effect(ce, amap, pc, ctx))
-            hoisted.add((x, pc, ctx))
+            hoisted.setdefault(x, []).append((pc, ctx))
             for k, v in cs.calls.items():
                 k2 = substitute(k, amap)
                 out.calls.setdefault(k2, v)
@@ -1471,6 +1558,8 @@ def _inline(te: "TermEval", func: FuncInfo, depth: int, stack: tuple, stop) -> S
                 out.props.setdefault(substitute(k, amap), v)
             for rpc, rt, rn in cs.raises:
                 out.raises.append((pc + tuple(substitute(c, amap) for c in rpc), substitute(rt, amap), rn))
+            if is_ctor:
+                return x
             return substitute(cs.return_term(), amap)
         return f(t)
 
@@ -1524,6 +1613,8 @@ def _inline(te: "TermEval", func: FuncInfo, depth: int, stack: tuple, stop) -> S
                     survived.append((e.pc, e.ctx, negl))
         if e.kind == "call" and v[0] != "call":
             continue  # a statement-level package call: replaced by the callee's effects
+        if e.kind == "call" and v != e.value and v not in out.precise and isinstance(e.node, (ast.Assign, ast.AnnAssign)):
+            continue  # `x = helper()` whose value is an external call: as for `x = external()` written directly
         out.effects.append(Effect(e.kind, b, k, v, pc_x, ctx_x, e.node, e.func, e.aug))
     # generator fusion: an effect inside `for x in <package generator>(...)` happens once per value the generator
     # yields - it is replaced by one copy per yield statement, with x := the yielded value and the yield's own loops and
@@ -1769,6 +1860,26 @@ def generator_sources(te: "TermEval", summ: Summary, t, depth: int = 2) -> list:
             sub.calls = {substitute(k, amap): vv for k, vv in gs.calls.items()}
             sub.precise = {substitute(k, amap) for k in gs.precise}
             out.extend(generator_sources(te, sub, v, depth - 1))
+    return out
+
+
+def ctor_calls(summ: Summary, cls) -> list:
+    """Distinct call terms of `summ` that construct an instance of the package class `cls` (resolved by type, so an
+    alias or a module-qualified name of the class is the same thing)."""
+    own_init = "__init__" in cls.methods
+    out = []
+    for c in summ.all_calls():
+        if c[1][0] == "attr" and c[1][2] == "__init__":
+            continue     # an explicit base-class initialiser call, not a construction
+        if c not in summ.precise or c in out:
+            continue
+        tg = summ.calls.get(c, ())
+        if own_init:
+            hit = any(f.name == "__init__" and f.cls is cls for f in tg)
+        else:
+            hit = call_name(c) == cls.name and any(f.name == "__init__" for f in tg)
+        if hit:
+            out.append(c)
     return out
 
 
